@@ -7,6 +7,8 @@ CONSTANTS
   MaxFrames = 3
   BufferOversized = TRUE
   NonceReuse = FALSE
+  AllowReconnect = FALSE
+  NoncePerSession = FALSE
   DupDeliver = FALSE
 INVARIANTS C14_OversizedCloses
 
